@@ -706,9 +706,9 @@ func Check() *engine.Check {
 			"oauth2_introspection, anonymous, unauthorized} (plus a family of chains with a jwt authenticator behind a metadata endpoint whose URL is a " +
 			"template over the token's issuer) x every assignment of allow_fallback_on_error per flaggable authenticator from 4 sources " +
 			"(catalogue default, catalogue true, rule-level true over catalogue default, rule-level false over catalogue true; for chains <= 2 also " +
-			"a rule-level override of another property over catalogue true / default, which must inherit the catalogue value) x 22 values of the one " +
+			"a rule-level override of another property over catalogue true / default, which must inherit the catalogue value) x 24 values of the one " +
 			"Authorization header (none; Basic valid / wrong password / wrong user / not base64 / no colon / scheme only; Bearer JWT valid / bad " +
-			"signature / expired / wrong audience / unknown kid / without iss / ES384 under the kid of the ES256 key / HS256 MAC'ed with the published key set / alg none / three garbage segments; Bearer opaque active / inactive / wrong audience; " +
+			"signature / expired / wrong audience / unknown kid / without iss / valid after two blanks / bad signature after a tab / ES384 under the kid of the ES256 key / HS256 MAC'ed with the published key set / alg none / three garbage segments; Bearer opaque active / inactive / wrong audience; " +
 			"Bearer scheme only; Digest) x 5 X-Session values when generic is in the chain (none, valid, unknown->401, inactive, answer without subject) " +
 			"x {ok, 503, transport error} for every remote (JWKS, identity, introspection endpoint) of the chain. Real authenticators from the real " +
 			"mechanism factory, chained in a real rule (real rule factory, repository, executor); subject id echoed by a header finalizer. Chains of " +
